@@ -691,7 +691,7 @@ def run(ctx):
 
 
 MANIFEST = dict(
-    text='Decides structural agreement between the sibling GDSII parsers/writers: element-opening and tag-carrying record tables of gds_info equal those of read_gds (extracted from both), with the same routing into shape/label tag sets; the UNITS formulas of gds_units, gds_info and read_gds normalise to the same expressions; Library::write_gds\'s header and trailer are clones of gdswriter_init / GdsWriter::close and both hand cells the same scaling; read_rawcells accounts every record of an open structure into the raw cell (offset = ftell - record_length) and RawCell::to_gds moves exactly size bytes; a raw cell clears its source pointer unconditionally after releasing its share; the timestamp constants (28 = 4 + 2*12, seek -24, 12 words, word order and biases) are paired and the BGNLIB/BGNSTR rewrites are clones; the polygon and path tag-filter blocks at ENDEL are clones with the confirmed condition and the filter parameter is never reassigned (an empty set filters everything); record payloads reach only length-taking functions unless the arm terminates them first, every parser offers gdsii_read_record a buffer for the longest legal record and announces exactly its capacity; a timestamp rewrite run leaves the record loop only at ENDLIB or through an error exit (the only early success exit is the query mode) and rewrites every BGNSTR. Equality of loaded libraries or re-emitted bytes is not decided.',
+    text='Decides structural agreement between the sibling GDSII parsers/writers: element-opening and tag-carrying record tables of gds_info equal those of read_gds (extracted from both), with the same routing into shape/label tag sets; the UNITS formulas of gds_units, gds_info and read_gds normalise to the same expressions; Library::write_gds\'s header and trailer are clones of gdswriter_init / GdsWriter::close and both hand cells the same scaling; read_rawcells accounts every record of an open structure into the raw cell (offset = ftell - record_length) and RawCell::to_gds moves exactly size bytes; a raw cell clears its source pointer unconditionally after releasing its share; the timestamp constants (28 = 4 + 2*12, seek -24, 12 words, word order and biases) are paired and the BGNLIB/BGNSTR rewrites are clones; the polygon and path tag-filter blocks at ENDEL are clones with the confirmed condition and the filter parameter is never reassigned (an empty set filters everything); record payloads reach only length-taking functions unless the arm terminates them first, every parser offers gdsii_read_record a buffer for the longest legal record and announces exactly its capacity; a timestamp rewrite run leaves the record loop only at ENDLIB or through an error exit (the only early success exit is the query mode) and rewrites every BGNSTR. Equality of loaded libraries or re-emitted bytes is not decided. The bytes that Library::write_gds (on a library without cells) and gdswriter_init + GdsWriter::close put around the cells are decided against the format by interpretation (R-MODEL.header: HEADER, BGNLIB with the time stamp twice, LIBNAME padded to even length, UNITS, ENDLIB, one fclose; names of odd and even length); the spelling comparison of the two writers is advisory.',
     note='Trusted: clang front end, gx, sa rules; tables are extracted from both sides (no frozen copy of either).',
-    technique='sibling table extraction and comparison + path conditions evaluated over the record-type enumeration (timestamp rewrite sites) + paired-constant checks over typed ASTs + conversion-chain (width) comparison of the two decoders',
+    technique='sibling table extraction and comparison + path conditions evaluated over the record-type enumeration (timestamp rewrite sites) + paired-constant checks over typed ASTs + conversion-chain (width) comparison of the two decoders + byte-level interpretation of both GDSII header/trailer writers against the format (sa/minieval)',
     design='§4 C17')
